@@ -101,8 +101,10 @@ func judgeC01(c SrvCase) []Violation {
 					if o.How == 2 {
 						model[p].verf = o.Verf
 					}
-				} else if o.How != 2 && o.Sa.Size != nil {
-					f.data = resize(f.data, int(*o.Sa.Size))
+				} else if o.How == 0 && o.Sa.Size != nil {
+					f.data = resize(f.data, int(*o.Sa.Size)) // only UNCHECKED applies a size to an existing file
+				} else if o.How == 1 {
+					bad("guarded-create-accepted", "GUARDED CREATE over an existing file replied NFS3_OK (the file's bytes are at its mercy)", o)
 				}
 				// otherwise: existing data must be unchanged (checked against the backend below)
 			}
@@ -272,7 +274,7 @@ func genC01(rng *rand.Rand, n int) SrvCase {
 			if o.How == 2 {
 				o.Verf = []byte{byte(rng.Intn(2)), 0, 0, 0, 0, 0, 0, byte(rng.Intn(2))}
 			} else if rng.Intn(3) == 0 {
-				o.Sa.Size = p64(0)
+				o.Sa.Size = p64(uint64([]int{0, 0, 3, 100}[rng.Intn(4)]))
 			}
 			if rng.Intn(2) == 0 && o.How != 2 {
 				o.Sa.Mode = p32(0o644)
